@@ -79,7 +79,17 @@ def run_bins_sym(k, nan_row):
         eng.assume(B[i - 1] < B[i])
     idx = pd.date_range("2021-01-01", periods=2, freq="h", tz="UTC")
     temps = pd.Series(SymArray([real("T"), NAN if nan_row else real("T2")]), index=idx)
-    out = ft.compute_temperature_bin_features(temps, [SReal(b) for b in B])
+    ends = [SReal(b) for b in B]
+    keep = list(ends)
+    out = ft.compute_temperature_bin_features(temps, ends)
+    # the same list object is handed over a second time (callers keep their endpoint list across segments/batches)
+    untouched = len(ends) == len(keep) and all(a is b for a, b in zip(ends, keep))
+    out2 = ft.compute_temperature_bin_features(temps, ends)
+    same = out2.shape == out.shape and list(out2.columns) == list(out.columns) and all(
+        (is_nan(a) and is_nan(b)) or (isinstance(a, SReal) and isinstance(b, SReal) and z3.eq(z3.simplify(lift(a)), z3.simplify(lift(b)))) or
+        (not isinstance(a, SReal) and not isinstance(b, SReal) and a == b)
+        for c in out.columns for a, b in zip(cells(out[c]), cells(out2[c])))
+    out.attrs["verif_repeat"] = (untouched, same)
     return out
 
 
@@ -89,7 +99,12 @@ def replay_bins(inp):
     B = [float(env[f"b{i}"]) for i in range(k)]
     idx = pd.date_range("2021-01-01", periods=2, freq="h", tz="UTC")
     temps = pd.Series([float(env["T"]), np.nan], index=idx)
-    out = ft.compute_temperature_bin_features(temps, list(B))
+    ends = list(B)
+    out = ft.compute_temperature_bin_features(temps, ends)
+    if inp["label"] == "repeat":
+        out2 = ft.compute_temperature_bin_features(temps, ends)
+        bad = ends != list(B) or out2.shape != out.shape or not np.array_equal(out.to_numpy(dtype=float), out2.to_numpy(dtype=float), equal_nan=True)
+        return bad, f"endpoint list {B} -> {ends} after one call; second call with the same list gives {out2.shape[1]} bins {list(out2.iloc[0])} (first: {list(out.iloc[0])})"
     row = [float(x) for x in out.iloc[0]]
     e2 = dict(env)
     Bz = [z3.Real(f"b{i}") for i in range(k)]
@@ -112,6 +127,8 @@ def run_bins(case, k):
                 continue
             out = p.value
             case.twin(p)
+            untouched, same = out.attrs.get("verif_repeat", (False, False))
+            case.prove(p, bool(untouched and same), "the caller's endpoint list is left as it was and a second call with the same list gives the same features", replay=rp("repeat"))
             ok = out.shape == (2, k + 1) and list(out.columns) == [f"bin_{i}" for i in range(k + 1)]
             case.prove(p, ok, "one feature column per bin", replay=rp("bin features sum to the temperature"))
             if not ok:
